@@ -1,4 +1,180 @@
 package main
 
-// runControls applies the positive-control mutants of a property (thorough tier).
-func runControls(oc *Outcome) {}
+// Positive controls (thorough tier): every seeded change kept under
+// /verif/seeded/<property>-<x>/ and every own mutant under
+// /verif/mutants/<property>/*.patch is applied to a scratch copy of the
+// CURRENT /repo tree; the property's rules must report a violation there. A
+// patch that no longer applies is "skipped"; a control that applies but does
+// not fire is reported as CONTROL-MISSED in the output and in the evidence
+// (it does not turn the verdict on the real tree into a violation: the
+// verdict speaks about /repo, the controls about the checker).
+
+import (
+	"encoding/json"
+	"fmt"
+	"os"
+	"os/exec"
+	"path/filepath"
+	"sort"
+	"strings"
+	"sync"
+)
+
+type controlSpec struct {
+	Name  string
+	Patch string
+}
+
+func controlsFor(prop string) []controlSpec {
+	var out []controlSpec
+	seeded, _ := filepath.Glob(filepath.Join(verifDir(), "seeded", prop+"-*", "patch.diff"))
+	for _, p := range seeded {
+		out = append(out, controlSpec{Name: "seeded/" + filepath.Base(filepath.Dir(p)), Patch: p})
+	}
+	own, _ := filepath.Glob(filepath.Join(verifDir(), "mutants", prop, "*.patch"))
+	for _, p := range own {
+		out = append(out, controlSpec{Name: "mutants/" + prop + "/" + strings.TrimSuffix(filepath.Base(p), ".patch"), Patch: p})
+	}
+	sort.Slice(out, func(i, j int) bool { return out[i].Name < out[j].Name })
+	return out
+}
+
+func runControls(oc *Outcome) {
+	specs := controlsFor(oc.Prop)
+	if len(specs) == 0 {
+		return
+	}
+	self, err := os.Executable()
+	if err != nil {
+		oc.Controls = append(oc.Controls, ControlResult{Name: "-", Result: "skipped", Detail: "cannot locate own executable: " + err.Error()})
+		return
+	}
+	results := make([]ControlResult, len(specs))
+	sem := make(chan struct{}, 8)
+	var wg sync.WaitGroup
+	for i, s := range specs {
+		wg.Add(1)
+		go func(i int, s controlSpec) {
+			defer wg.Done()
+			sem <- struct{}{}
+			defer func() { <-sem }()
+			results[i] = runOneControl(self, oc.Prop, s)
+		}(i, s)
+	}
+	wg.Wait()
+	for _, r := range results {
+		oc.Controls = append(oc.Controls, r)
+		if r.Result == "missed" {
+			fmt.Printf("CONTROL-MISSED: property=%s control=%s: the patch applies but no rule fires (%s)\n", oc.Prop, r.Name, r.Detail)
+		}
+	}
+}
+
+func runOneControl(self, prop string, s controlSpec) ControlResult {
+	res := ControlResult{Name: s.Name}
+	tmp, err := os.MkdirTemp("", "verifctl-")
+	if err != nil {
+		res.Result, res.Detail = "skipped", err.Error()
+		return res
+	}
+	defer os.RemoveAll(tmp)
+	scratch := filepath.Join(tmp, "repo")
+	vdir := filepath.Join(tmp, "verif")
+	_ = os.MkdirAll(vdir, 0o755)
+	cp := exec.Command("rsync", "-a", "--exclude", ".git", repoDir()+"/", scratch+"/")
+	if out, err := cp.CombinedOutput(); err != nil {
+		res.Result, res.Detail = "skipped", "copy failed: "+strings.TrimSpace(string(out))
+		return res
+	}
+	for _, f := range []string{"known_findings.json", "properties.jsonl"} {
+		if b, err := os.ReadFile(filepath.Join(verifDir(), f)); err == nil {
+			_ = os.WriteFile(filepath.Join(vdir, f), b, 0o644)
+		}
+	}
+	pf, err := os.Open(s.Patch)
+	if err != nil {
+		res.Result, res.Detail = "skipped", err.Error()
+		return res
+	}
+	ap := exec.Command("patch", "-p1", "-s", "--no-backup-if-mismatch", "-d", scratch)
+	ap.Stdin = pf
+	out, err := ap.CombinedOutput()
+	pf.Close()
+	if err != nil {
+		res.Result, res.Detail = "skipped", "patch does not apply to the current tree: "+firstLine(string(out))
+		return res
+	}
+	run := exec.Command(self, prop, "--tier", "quick")
+	run.Env = append(os.Environ(), "VERIF_REPO="+scratch, "VERIF_DIR="+vdir, "VERIF_TIER=quick")
+	_, _ = run.CombinedOutput()
+	code := 0
+	if run.ProcessState != nil {
+		code = run.ProcessState.ExitCode()
+	}
+	// read the report
+	var rep struct {
+		Violations []*Obligation `json:"violations"`
+		Fatal      []string      `json:"analysis_failures"`
+	}
+	if b, err := os.ReadFile(filepath.Join(vdir, "reports", prop+".json")); err == nil {
+		_ = json.Unmarshal(b, &rep)
+	}
+	var rules []string
+	seen := map[string]bool{}
+	for _, v := range rep.Violations {
+		k := v.Rule + " [" + v.Construct + "]"
+		if !seen[k] {
+			seen[k] = true
+			rules = append(rules, k)
+		}
+	}
+	sort.Strings(rules)
+	if len(rules) > 3 {
+		rules = append(rules[:3], fmt.Sprintf("(+%d more)", len(rules)-3))
+	}
+	switch {
+	case code == 1 && len(rep.Violations) > 0:
+		res.Result = "fired"
+		res.Rule = strings.Join(rules, "; ")
+	case code == 1 && len(rep.Fatal) > 0:
+		res.Result = "fired"
+		res.Rule = "analysis failure (e.g. the change does not type-check): " + firstLine(rep.Fatal[0])
+	default:
+		res.Result = "missed"
+		res.Detail = fmt.Sprintf("exit code %d, %d violations", code, len(rep.Violations))
+	}
+	return res
+}
+
+func firstLine(s string) string {
+	s = strings.TrimSpace(s)
+	if i := strings.IndexByte(s, '\n'); i >= 0 {
+		s = s[:i]
+	}
+	if len(s) > 200 {
+		s = s[:200]
+	}
+	return s
+}
+
+// crossReferences runs the generic linters as evidence only (never a verdict).
+func crossReferences() []string {
+	var out []string
+	env := append(os.Environ(), "GOFLAGS=-mod=mod", "GOPROXY=off", "GOSUMDB=off", "GOTOOLCHAIN=local", "GOWORK=off")
+	vet := exec.Command("go", "vet", "./...")
+	vet.Dir = repoDir()
+	vet.Env = env
+	b, err := vet.CombinedOutput()
+	lines := 0
+	for _, l := range strings.Split(string(b), "\n") {
+		if strings.Contains(l, ".go:") {
+			lines++
+		}
+	}
+	if err != nil {
+		out = append(out, fmt.Sprintf("go vet ./...: %d diagnostic line(s) (evidence only, not a verdict)", lines))
+	} else {
+		out = append(out, "go vet ./...: clean (evidence only; says nothing about the property)")
+	}
+	return out
+}
